@@ -42,6 +42,12 @@ func (p *Pather) Paths(dst addr.IA) []snet.Path {
 }
 
 func update(ctx context.Context, p *Pather, dc daemon.Connector, dstIAs []addr.IA) {
+	if dc == nil {
+		// The daemon could not be connected to: no paths are known.
+		p.log.LogAttrs(ctx, slog.LevelInfo, "failed to look up paths",
+			slog.String("cause", "no connection to SCION daemon"))
+		return
+	}
 	localIA, err := dc.LocalIA(ctx)
 	if err != nil {
 		p.log.LogAttrs(ctx, slog.LevelInfo,
